@@ -337,9 +337,27 @@ SEEDED = [
     ("C16-1", "C16", "BM1"), ("C16-2", "C16", "R1c"),
     ("C19-2", "C19", "DR4"),
     ("C20-1", "C20", "K2"),
+    # round 2
+    ("r2-C01-1", "C01", "SH2"), ("r2-C01-2", "C01", "H2"),
+    ("r2-C03-1", "C03", "S1"), ("r2-C03-2", "C05", "INV"),
+    ("r2-C04-1", "C04", "SH2"), ("r2-C04-2", "C04", "SH3"),
+    ("r2-C05-1", "C05", "GO1"), ("r2-C05-2", "C05", "ELT1"),
+    ("r2-C06-1", "C06", "M4"), ("r2-C06-2", "C09", "V2"),
+    ("r2-C08-1", "C08", "PA1"), ("r2-C08-2", "C08", "INF1"),
+    ("r2-C09-1", "C09", "FK1"), ("r2-C09-2", "C09", "V2r"),
+    ("r2-C10-1", "C10", "V2r"), ("r2-C10-2", "C10", "V1p"),
+    ("r2-C11-1", "C11", "S2"), ("r2-C11-2", "C11", "S1c"),
+    ("r2-C12-1", "C12", "OF1"),
+    ("r2-C13-1", "C13", "ODD1"), ("r2-C13-2", "C13", "HD1"),
+    ("r2-C14-2", "C14", "X3"),
+    ("r2-C15-1", "C14", "AX1"),
+    ("r2-C16-1", "C16", "SH4"), ("r2-C16-2", "C16", "R1c"),
+    ("r2-C19-2", "C19", "K4"),
+    ("r2-C20-1", "C20", "K3"),
 ]
 # seeded changes no static rule here decides (numerical / heuristic):
-# C14-1, C15-1, C15-2, C19-1, C20-2 -- see DESIGN.md section 6.2
+# C14-1, C15-1, C15-2, C19-1, C20-2, r2-C12-2, r2-C14-1, r2-C15-2, r2-C19-1,
+# r2-C20-2 -- see DESIGN.md section 6.2
 
 # behaviour-preserving edits: every listed property must stay silent (exit 0)
 NEUTRAL = [
@@ -442,6 +460,18 @@ NEUTRAL = [
     ("n-intersect-refactor", ["C16"], P,
      "        if broadcast == \"elementwise\":\n            p1, p2 = self.proj_data, other_obj.proj_data\n        elif broadcast == \"pairwise\":\n            p1, p2 = utils.broadcast_match(self.proj_data,\n                                          other_obj.proj_data, 2)\n        else:\n            raise ValueError(f\"Unrecognized broadcast rule: '{broadcast}'\")\n",
      "        if broadcast not in (\"elementwise\", \"pairwise\"):\n            raise ValueError(f\"Unrecognized broadcast rule: '{broadcast}'\")\n        p1, p2 = self.proj_data, other_obj.proj_data\n        if broadcast == \"pairwise\":\n            p1, p2 = utils.broadcast_match(p1, p2, 2)\n"),
+    ("n-explicit-projection", ["C13", "C12", "C04"], H,
+     "    return tangent_vector - utils.projection(\n        tangent_vector, basepoint, form\n    )",
+     "    coeff = (utils.apply_bilinear(tangent_vector, basepoint, form) /\n             utils.normsq(basepoint, form))\n    return tangent_vector - (basepoint.T * coeff.T).T"),
+    ("n-inf-lt-one", ["C08"], K,
+     "        adjusted_cox_matrix[adjusted_cox_matrix.astype(float) <= 0] = half",
+     "        adjusted_cox_matrix[adjusted_cox_matrix.astype(float) < 1] = half"),
+    ("n-diameter-after-mask", ["C19"], D,
+     "                    EllipseCollection(circle_radii * 2, circle_radii * 2,",
+     "                    EllipseCollection(2 * circle_radii, 2 * circle_radii,"),
+    ("n-both-sorted", ["C05"], R,
+     "        blocks = [self._differential(word, g, verbose=verbose)\n                  for g in self.asym_gens()]",
+     "        blocks = [self._differential(word, g, verbose=verbose)\n                  for g in self.asym_gens() ]"),
     ("n-aligned-sign", ["C12"], H,
      "        aligned = other.proj_data * np.expand_dims(-np.sign(products), axis=-1)",
      "        aligned = -np.sign(products)[..., np.newaxis] * other.proj_data"),
